@@ -330,7 +330,7 @@ NODE_DRIVER = r"""
 #include "naunet_constants.h"
 #include "naunet_physics.h"
 #define NX(a) ((int)(sizeof(a) / sizeof(a[0])))
-static long judged = 0, skipped = 0, bad = 0;
+static long judged = 0, skipped = 0, bad = 0, edges = 0;
 static char first[400] = "";
 static void judge(const char *tab, int i, int j, int k, double want, double got) {
     judged++;
@@ -360,6 +360,52 @@ int main() {
         if (!ok) { skipped++; continue; }                                                                     \
         judge(NAME, i, j, k, T[i][j][k], F(X[i], Y[j], Z[k]));                                                \
     }
+/* between two adjacent nodes along one axis (the other arguments on nodes) any interpolation that is monotone within
+   a cell gives a value STRICTLY between the two node values when they differ: judged at the log-midpoint of every edge
+   whose end nodes are both judged */
+#define OKNODE(X, Y, Z, T, i, j, k) ([&]() {                                                                  \
+        for (int a = -1; a <= 1; a++) for (int b = -1; b <= 1; b++) for (int c = -1; c <= 1; c++) {           \
+            int ii = (i) + a, jj = (j) + b, kk = (k) + c;                                                     \
+            if (ii < 0 || jj < 0 || kk < 0 || ii >= NX(X) || jj >= NX(Y) || kk >= NX(Z)) continue;            \
+            if (!(pos(T[ii][jj][kk]) && pos(X[ii]) && pos(Y[jj]) && pos(Z[kk]))) return 0;                    \
+        }                                                                                                     \
+        return 1; }())
+#define EDGES(NAME, X, Y, Z, T, F)                                                                            \
+    for (int i = 0; i < NX(X); i++) for (int j = 0; j < NX(Y); j++) for (int k = 0; k < NX(Z); k++)           \
+        for (int ax = 0; ax < 3; ax++) {                                                                      \
+            int i2 = i + (ax == 0), j2 = j + (ax == 1), k2 = k + (ax == 2);                                   \
+            if (i2 >= NX(X) || j2 >= NX(Y) || k2 >= NX(Z)) continue;                                          \
+            if (!OKNODE(X, Y, Z, T, i, j, k) || !OKNODE(X, Y, Z, T, i2, j2, k2)) continue;                    \
+            double t0 = T[i][j][k], t1 = T[i2][j2][k2], lo = fmin(t0, t1), hi = fmax(t0, t1);                 \
+            if (!(hi - lo > 1e-6 * hi)) continue;                                                             \
+            double got = F(sqrt(X[i] * X[i2]), sqrt(Y[j] * Y[j2]), sqrt(Z[k] * Z[k2]));                       \
+            edges++;                                                                                          \
+            if (!(got > lo * (1 + 1e-9) && got < hi * (1 - 1e-9))) {                                          \
+                if (!bad) snprintf(first, sizeof first, "%s midpoint of the edge (%d,%d,%d)-(%d,%d,%d): node values %.17g and %.17g, helper returns %.17g (not strictly between)", NAME, i, j, k, i2, j2, k2, t0, t1, got); \
+                bad++;                                                                                        \
+            }                                                                                                 \
+        }
+#ifdef VERIF_H2
+    for (int i = 0; i + 1 < NX(H2ShieldingTableX); i++) {
+        int ok = 1;
+        for (int d = -1; d <= 2 && ok; d++) if (i + d >= 0 && i + d < NX(H2ShieldingTableX)) ok = pos(H2ShieldingTable[i + d]) && pos(H2ShieldingTableX[i + d]);
+        if (!ok) continue;
+        double t0 = H2ShieldingTable[i], t1 = H2ShieldingTable[i + 1], lo = fmin(t0, t1), hi = fmax(t0, t1);
+        if (!(hi - lo > 1e-6 * hi)) continue;
+        double got = GetH2shieldingInt(sqrt(H2ShieldingTableX[i] * H2ShieldingTableX[i + 1]));
+        edges++;
+        if (!(got > lo * (1 + 1e-9) && got < hi * (1 - 1e-9))) {
+            if (!bad) snprintf(first, sizeof first, "H2 (L96) midpoint of the interval %d-%d: node values %.17g and %.17g, helper returns %.17g (not strictly between)", i, i + 1, t0, t1, got);
+            bad++;
+        }
+    }
+#endif
+#ifdef VERIF_CO
+    EDGES("CO (V09)", COShieldingTableX, COShieldingTableY, COShieldingTableZ, COShieldingTable, GetCOshieldingInt)
+#endif
+#ifdef VERIF_N2
+    EDGES("N2 (L13)", N2ShieldingTableX, N2ShieldingTableY, N2ShieldingTableZ, N2ShieldingTable, GetN2shieldingInt)
+#endif
 #ifdef VERIF_CO
     CUBE("CO (V09)", COShieldingTableX, COShieldingTableY, COShieldingTableZ, COShieldingTable, GetCOshieldingInt)
 #endif
@@ -379,7 +425,7 @@ int main() {
     }
 #endif
     FILE *o = fopen("nodes.txt", "w");
-    fprintf(o, "%ld %ld %ld\n%s\n", judged, skipped, bad, first);
+    fprintf(o, "%ld %ld %ld %ld\n%s\n", judged, skipped, bad, edges, first);
     fclose(o);
     return 0;
 }
@@ -420,21 +466,21 @@ def shielding_nodes(which):
         rc, so, se = runcmd([GXX, "-std=c++17", "-w", "-O0", "-g", "-fsanitize=address,undefined", "-fno-sanitize-recover=all", f"-DVERIF_{which}", "-I", str(SHIM), "-I", "include", *srcs, "driver.cpp", "-o", "drv", "-lm"], cwd=str(d), timeout=600)
         if rc != 0:
             first = next((ln for ln in se.splitlines() if "error" in ln), se[:200])
-            return which, 0, [(f"C05:shielding-nodes:{which}:compile", f"{which} {table}: {first[:300]}", case)]
+            return which, [0, 0], [(f"C05:shielding-nodes:{which}:compile", f"{which} {table}: {first[:300]}", case)]
         import subprocess
 
         pr = subprocess.run(["./drv"], cwd=str(d), capture_output=True, timeout=600, env={"ASAN_OPTIONS": "detect_leaks=0"})
         if pr.returncode != 0:
             err = pr.stderr.decode(errors="replace")
             head = next((ln for ln in err.splitlines() if "ERROR: AddressSanitizer" in ln or "runtime error" in ln), err[:300])
-            return which, 0, [(f"C05:shielding-nodes:{which}:sanitizer", f"{which} {table}: evaluating the helper at the table nodes: {head[:300]}", case)]
+            return which, [0, 0], [(f"C05:shielding-nodes:{which}:sanitizer", f"{which} {table}: evaluating the helper at the table nodes: {head[:300]}", case)]
         l1, l2 = ((d / "nodes.txt").read_text().split("\n") + [""])[:2]
-        judged, skipped, bad = (int(x) for x in l1.split())
+        judged, skipped, bad, edges = (int(x) for x in l1.split())
         if judged == 0:
             raise HarnessError(f"shielding nodes {which}: nothing judged (skipped {skipped})")
         if bad:
-            return which, judged, [(f"C05:shielding-nodes:{which}", f"{which} {table}: at {bad} of {judged} table nodes the compiled helper does not return the table value; first: {l2}", case)]
-        return which, judged, []
+            return which, [judged, edges], [(f"C05:shielding-nodes:{which}", f"{which} {table}: at {bad} of {judged} table nodes and {edges} edge midpoints the compiled helper does not return the table value (node) or a value strictly between the two node values (edge midpoint); first: {l2}", case)]
+        return which, [judged, edges], []
     finally:
         shutil.rmtree(d, ignore_errors=True)
 
@@ -494,15 +540,15 @@ def run(ctx):
         ctx.absorb(viols)
     nodes = {}
     for which, n, viols in ctx.pmap(shielding_nodes, ["H2", "CO", "N2", "COVB"]):
-        nodes[which] = n
-        nval += n
+        nodes[which] = {"nodes": n[0], "edge_midpoints": n[1]} if n else {"nodes": 0, "edge_midpoints": 0}
+        nval += sum(n) if n else 0
         ctx.absorb(viols)
     for n, viols in ctx.pmap(ucl_helpers, [0]):
         nval += n
         ctx.absorb(viols)
     ctx.assumptions += [
         "UCLCHEM's CO photodissociation helpers (dust scattering, tau(lambda)/tau(V), lambda-bar) are compared with a second transcription of photoreac.f90 on a grid bracketing every branch point; the Savage & Mathis table values themselves are copied, only the control flow around them is independent",
-        "the tabulated shielding functions themselves are judged by an interpolation invariant only: at every node of the generated table (positive neighbourhood) the compiled helper returns the table value; values between nodes and beyond the table are not judged",
+        "the tabulated shielding functions themselves are judged by an interpolation invariant only: at every node of the generated table (positive neighbourhood) the compiled helper returns the table value, and at the log-midpoint of every axis-parallel edge between two judged nodes of the H2 (L96), CO (V09) and N2 (L13) tables whose values differ it returns a value strictly between the two (true of any interpolation that is monotone within a cell; catches swapped or missing weights and wrong neighbour indices); other values between nodes and beyond the table are not judged",
         "reference laws: KIDA formulae 1-5 (Wakelam+2012), UMIST RATE12 (McElroy+2013), Walsh+2015 (Leeds), UCLCHEM v1.3, transcribed in mc/ref/ratelaws.py; zism = 1.3e-17",
         "shielding/scattering helper values entering a law are taken from the compiled helpers themselves, called with the column densities the source database prescribes (N(H2) = 0.5*1.59e21*Av, N(CO) = N(N2) = 1e-5 N(H2)); for Leeds the three tables are selected, so a wrong column in the emitted rate changes the value",
         "comparison: relative 1e-12 or identical inf/nan class; window guards are C06's subject (all windows here are 1..99999 K)",
